@@ -55,7 +55,7 @@ def translate():
     l = arm(cg, r"Token::Loop \{ expr, loop_scope, block, \.\. \} => \{", "Token::Loop")
     ml = re.match(r"if let Some\(loop_count\) = self\.evaluate_expression_as_i64\(expr, true\)\? \{ "
                   r"(if loop_count > MAX_LOOP_ITERATIONS - self\.loop_iterations \{ return Err\(Diagnostic::error\(\)[^;]*; \} "
-                  r"self\.loop_iterations \+= loop_count\.max\(0\); )?for index in 0\.\.loop_count \{", l)
+                  r"self\.loop_iterations \+= loop_count(\.max\(0\))?; )?for index in 0\.\.loop_count \{", l)
     if not ml:
         raise ShapeError("Token::Loop: iteration has unrecognised shape")
     if ml.group(1):
@@ -63,8 +63,11 @@ def translate():
         if not mc or "self.loop_iterations = 0;" not in cg:
             raise ShapeError("MAX_LOOP_ITERATIONS / the per-pass reset of loop_iterations not found")
         out["loop_count_limit"] = "Some %d" % int(mc.group(1), 0)      # budget of all loops of one pass together
+        # a negative count runs no iteration and must not be charged (it would refund budget to later loops)
+        out["loop_charge_clamped"] = B(bool(ml.group(2)))
     else:
         out["loop_count_limit"] = "None"          # no bound on the number of iterations
+        out["loop_charge_clamped"] = B(True)
     # ---------------- nesting depth of emit_token (blocks, ifs, loops, macro invocations, imports, segment / label / test blocks)
     mn = re.search(r"fn emit_token\(&mut self, token: &Token\) -> CoreResult<\(\)> \{ match Self::nesting_span\(token\) \{ Some\(span\) => \{ "
                    r"(if self\.nesting_exhausted \{ return Ok\(\(\)\); \} )?"
